@@ -1242,6 +1242,35 @@ def methodDecl (fns : List (String × FnDecl)) (enums : List (String × List (St
       | none => none
   | _, _ => none
 
+-- [errors] BEGIN ------------------------------------------------------------------------------------
+/-- further candidate keys for a call `T::f(a)` with ONE argument that is a variant of an enum `E` of the
+    generated tables: the trait impl `From<E> for T::from`.  (`callKeys` names the impl after `typeName a`,
+    which for an enum value is the path of the VARIANT, except for the two enums `userTypeName` knows; the
+    dynamic type of a variant of `E` is `E`.)  Tried only when `callKeys` found nothing. -/
+def enumFromKeys (enums : List (String × List (String × Nat))) (fr : Frame) (segs : List String) :
+    List Value → List String
+  | [.enumv p _] =>
+    match enumOfVariant enums p with
+    | some t => ["From<" ++ t ++ "> for " ++ canon fr.selfTy segs]
+    | none => []
+  | _ => []
+/-- a FUNCTION PATH (two or more segments: `T::f`, `m::f`) as the only argument of a method call -/
+def fnPathArg : List Expr → Option (List String)
+  | [.path (a :: b :: segs)] => some (a :: b :: segs)
+  | _ => none
+
+/-- names that are not Rust identifiers, for the arguments a function path is applied to -/
+def fnPathParams : List Value → List (String × Value)
+  | [] => []
+  | [v] => [("{arg0}", v)]
+  | v :: w :: _ => [("{arg0}", v), ("{arg1}", w)]
+
+def fnPathArgs : List Value → List Expr
+  | [] => []
+  | [_] => [.path ["{arg0}"]]
+  | _ :: _ :: _ => [.path ["{arg0}"], .path ["{arg1}"]]
+-- [errors] END --------------------------------------------------------------------------------------
+
 /-- bind the arguments to the parameter patterns (ascribing the declared types) -/
 def bindParams : Nat → String → List (Pat × String) → List Value → Option (List (String × Value))
   | 0, _, _, _ => none
@@ -1309,6 +1338,15 @@ def eval : Nat → Ctx → Frame → Expr → St → Res
                 | .tuple [v, _] => .val v st
                 | _ => .stuck "internal: callDecl result"
             | none =>
+            -- [errors] BEGIN: `T::from(a)` with `a` a variant of an enum `E` of the tables: `From<E> for T::from`
+            match lookupFn ctx.fns (enumFromKeys ctx.enums fr segs vs) with
+            | some d =>
+              (callDecl n ctx d .unit vs st).bind fun rv st =>
+                match rv with
+                | .tuple [v, _] => .val v st
+                | _ => .stuck "internal: callDecl result"
+            | none =>
+            -- [errors] END
               -- the remaining built-in rules: integer conversions, `size_of::<T>()`; then the dictionary
               firstRule (intConvCall (canon fr.selfTy segs) vs st)
                 (match vs, sizeOf ctx.sizes (lastSeg segs) with
@@ -1333,6 +1371,17 @@ def eval : Nat → Ctx → Frame → Expr → St → Res
         | none => .stuck "method with a closure argument: no rule"
     | .mcall recv m args =>
       (eval n ctx fr recv st).bind fun rv st =>
+        -- [errors] BEGIN: a function path where a method of `Option` / `Result` expects a closure
+        -- (`r.map_err(ClockBoundError::from)`): `T::f` stands for `|x| T::f(x)` — the plan of `closureMethod`,
+        -- with the call `T::f(args)` as the closure body.  Applies only when the receiver/method pair has a
+        -- closure plan AND the single argument is syntactically a path of two or more segments.
+        match fnPathArg args, closureMethod rv m with
+        | some _, some (.done v) => .val v st
+        | some segs, some (.app cargs w) =>
+          ((eval n ctx fr (.call segs (fnPathArgs cargs)) { st with env := fnPathParams cargs ++ st.env }).popTo
+            st.env.length).bind fun v st => .val (wrapWith w v) st
+        | _, _ =>
+        -- [errors] END
         (evalList n ctx fr args st).bind fun av st =>
           match av with
           | .tuple vs =>
@@ -1363,6 +1412,18 @@ def eval : Nat → Ctx → Frame → Expr → St → Res
       match envGet st.env x with
       | some _ => .val (.ext "&mut" [.str x]) st
       | none => .stuck "&mut of something that is not a local variable"
+    -- [errors] BEGIN: `&mut *p` where `p` is an object of an extension dictionary (a raw pointer): the
+    -- reborrow of the place the dictionary's `deref` rule gives for `*p`.  VALUE SEMANTICS: what comes back
+    -- is the pointee's content; a local bound to it holds a copy, and writes to that copy are seen by later
+    -- reads through the same local only (not through `p`).  A dictionary that gives `deref` on a pointer
+    -- vouches that the functions it is used for reach the pointee through one name at a time (as in
+    -- `let ctx = &mut *ctx;`, which shadows the pointer).  On every other value `&mut` stays without a rule.
+    | .unary .refMut (.unary .deref e) =>
+      (eval n ctx fr e st).bind fun v st =>
+        match v with
+        | .ext tag args => runUnary ctx .deref (.ext tag args) st
+        | _ => .stuck "&mut borrow"
+    -- [errors] END
     | .unary op e => (eval n ctx fr e st).bind fun v st => runUnary ctx op v st
     | .binary .and a b =>
       -- `&&` evaluates its right operand only if the left one is true
@@ -1420,6 +1481,13 @@ def eval : Nat → Ctx → Frame → Expr → St → Res
     | .ret none => .ret .unit st
     | .ret (some e) => (eval n ctx fr e st).bind fun v st => .ret v st
     | .tuple es => evalList n ctx fr es st
+    -- [errors] BEGIN: `S { .., ..Default::default() }`: the base of a struct update has the type of the
+    -- literal, so `Default::default()` there is `<S as Default>::default()`, i.e. the call `S::default()`
+    -- (`callKeys` finds `Default for S::default`)
+    | .structLit segs fields (some (.call ["Default", "default"] [])) =>
+      eval n ctx fr (.structLit segs fields
+        (some (.call [if lastSeg segs = "Self" then fr.selfTy else lastSeg segs, "default"] []))) st
+    -- [errors] END
     | .structLit segs fields rest =>
       (evalFields n ctx fr fields st).bind fun fv st =>
         match fv with
